@@ -354,7 +354,7 @@ func (s *sched) exec(a Action, ctx holdCtx) {
 		for _, ci := range snaps {
 			s.deliver(&item{kind: "adv", peer: peer, snap: ci})
 		}
-	case "push":
+	case "push", "push-async":
 		peer := s.resolvePeer(a.Peer, ctx)
 		if peer < 0 || peer >= len(s.w.liars) {
 			return
@@ -384,7 +384,12 @@ func (s *sched) exec(a Action, ctx holdCtx) {
 			if b == nil {
 				b = s.garbage(h, f, idx)
 			}
-			s.deliver(&item{kind: "chunk", peer: peer, h: h, f: f, i: idx, bytes: b})
+			it := &item{kind: "chunk", peer: peer, h: h, f: f, i: idx, bytes: b}
+			if a.Kind == "push-async" {
+				go s.deliver(it) // the hold does not wait: the chunk is in flight while the app's response is handled
+			} else {
+				s.deliver(it)
+			}
 		}
 	case "stop":
 		if a.Peer < 0 || a.Peer >= len(s.w.liars) {
